@@ -270,6 +270,16 @@ class MathShim:
         return math.fsum(xs)
 
     @staticmethod
+    def hypot(*xs):
+        # as a real function hypot(a, b, ...) IS sqrt(a*a + b*b + ...); its careful rounding is invisible to the rounding-free tier
+        if any(isinstance(x, Sym) for x in xs):
+            acc = 0
+            for x in xs:
+                acc = acc + x * x
+            return MathShim.sqrt(acc)
+        return math.hypot(*xs)
+
+    @staticmethod
     def prod(xs, start=1):
         acc = start
         for x in xs:
